@@ -3,6 +3,7 @@
 #include "place_detailed/incr_net_model.hpp"
 #include "place_detailed/row_legalizer.hpp"
 #include "place_detailed/detailed_placement.hpp"
+#include "place_global/transportation.hpp"
 #include <algorithm>
 #include "json.hpp"
 #include "project.hpp"
@@ -314,6 +315,28 @@ inline Value handleDetState(const Value &v) {
   return r;
 }
 
+// ---- C13 (implementation-shaped layer): one final plan reachable in SspImpl for an instance; does the real solver return it?
+inline Value handleSsp(const Value &v) {
+  std::vector<long long> cap = v["cap"].longs(), dem = v["dem"].longs();
+  int ns = (int)cap.size(), nr = (int)dem.size();
+  std::vector<std::vector<int>> c(ns, std::vector<int>(nr));
+  for (int i = 0; i < ns; ++i)
+    for (int s = 0; s < nr; ++s) c[i][s] = (int)v["cost"][i][s].asInt();
+  TransportationProblem pb(cap, dem, c);
+  pb.solve();
+  bool same = true;
+  for (int i = 0; i < ns; ++i)
+    for (int s = 0; s < nr; ++s)
+      if (pb.allocation(i, s) != v["alloc"][i][s].asInt()) same = false;
+  Value key = Value::object();
+  key.set("cap", v["cap"]).set("dem", v["dem"]).set("cost", v["cost"]);
+  Value e = Value::object();
+  e.set("sspkey", key.str()).set("match", same);
+  Value r = Value::object();
+  r.set("ok", true).set("emit", Value::array().push(e));
+  return r;
+}
+
 inline Value handle(const Value &v) {
   const std::string &k = v["k"].asStr();
   if (k == "pin") return handlePin(v);
@@ -322,6 +345,7 @@ inline Value handle(const Value &v) {
   if (k == "free") return handleFree(v);
   if (k == "rowleg") return handleRowLeg(v);
   if (k == "detstate") return handleDetState(v);
+  if (k == "ssp") return handleSsp(v);
   return Value();
 }
 }  // namespace vr
